@@ -209,6 +209,21 @@ CLAIMED['C17'] = ('other',
     'abstract interpretation with coverage facts + weighted-sum normal form extraction + ALG tabulation',
     'DESIGN.md section C17')
 
+CLAIMED['C07'] = ('other',
+    'Decided part, against a hand-transcribed table of the 19 standards (specs/international.json, written from the standards, not '
+    'from the code): (1) the accept envelope of validate() computed by the abstract interpreter - the set of accepted lengths and the '
+    'exact character set of every position for every length - equals the transcribed shape in both directions; (2) the normal form of '
+    'compact() (deleted separators, case folding, stripping, literal prefixes) equals the transcribed presentation rules; (3) inline '
+    'check digit generators (ISBN-10, EAN/GTIN 8/12/13/14, ISSN, IMO, CAS, SEDOL) are reduced to weighted-sum normal form (modulus, '
+    'weights with the check weight normalised to 1, residue table, character values) and compared with the transcribed scheme; '
+    'delegating formats (ISBN-13, ISMN, IMEI, ISNI, LEI, IBAN, ISO 11649, GRid) hand every position to the named algorithm in the '
+    'transcribed rearrangement; (4) value alphabets (ISIN, CUSIP, Base58, Bech32) equal the transcribed order. Equality of the full '
+    'accept sets, the digit-sum arithmetic of ISIN/CUSIP/FIGI and Bitcoin hashing are not decided.',
+    'Trusted: the transcription; sa/strabs models; C06 for the generic algorithms. Known findings: LEI has no length/alphabet gate, '
+    'ISNI and ISO 11649 admit non-ASCII digits.',
+    'abstract interpretation (accept envelope) + normal-form comparison against a transcribed table',
+    'DESIGN.md section C07 and appendix A')
+
 NOT_APPLICABLE = {
 }
 
